@@ -109,6 +109,10 @@ func runSolver(ctx context.Context, s solverSpec, file string, timeoutSec, n int
 // solveScript races the solvers on one script with n check-sats. If all is
 // set, every solver runs to completion and definitive answers must agree.
 func solveScript(dir, name, script string, n, timeoutSec int, all bool) solveResult {
+	return solveScriptWith(solvers, dir, name, script, n, timeoutSec, all)
+}
+
+func solveScriptWith(use []solverSpec, dir, name, script string, n, timeoutSec int, all bool) solveResult {
 	file := filepath.Join(dir, sanitize(name)+".smt2")
 	os.WriteFile(file, []byte(script), 0o644)
 	start := time.Now()
@@ -119,7 +123,6 @@ func solveScript(dir, name, script string, n, timeoutSec int, all bool) solveRes
 		vs     []string
 		out    string
 	}
-	use := solvers
 	ch := make(chan ans, len(use))
 	for _, s := range use {
 		go func(s solverSpec) {
@@ -189,6 +192,10 @@ func countDef(vs []string) int {
 // parts run in parallel, bounded by the number of cores.
 func discharge(obls []*Oblig, dir string, timeoutSec int, all bool) {
 	var wg sync.WaitGroup
+	defer func() {
+		// table obligations are batched per table once their parts are normalised
+		dischargeTables(obls, dir, timeoutSec, all)
+	}()
 	for _, o := range obls {
 		var parts []OblPart
 		for _, p := range o.Parts {
@@ -202,6 +209,9 @@ func discharge(obls []*Oblig, dir string, timeoutSec int, all bool) {
 		if len(parts) == 0 {
 			o.Solver = "trivial"
 			continue
+		}
+		if o.Kind == "table" {
+			continue // batched below
 		}
 		wg.Add(1)
 		go func(o *Oblig) {
